@@ -1,10 +1,12 @@
-(* C14 — Binary edge lists round-trip through a fixed little-endian record format.  Statements only; proofs in IOProofs.v.
-   PARTIAL: proved are the codec (fixed width, round trip of every value that fits), the record layout and file length, and that loading
-   the encoding of ANY record list - in any order, duplicates included - is the graph built from exactly those records. That the writer
-   emits one such record per edge, the graph-level equality after resize and the missing-file behaviour are tied to the implementation by
-   the correspondence check.  Little-endian host assumed (the swapBytes branch is not modelled). *)
+(* C14 — Binary edge lists round-trip through a fixed little-endian record format.  Statements only; proofs in IOProofs.v, RoundTrip.v, URoundTrip.v.
+   Proved: the codec (fixed width, round trip of every value that fits), the record layout and file length, that loading the encoding of ANY
+   record list - in any order, duplicates included - is the graph built from exactly those records, and the graph-level round trip: the
+   writer emits exactly one record per edge (directed: the flattened adjacency lists; undirected: their i <= j half), and loading those bytes
+   and resizing to the original vertex count gives a graph == the original (directed: identical neighbour lists).
+   PARTIAL: std::runtime_error on unopenable files is tied to the implementation by the correspondence check only.  Little-endian host assumed
+   (the swapBytes branch is not modelled). *)
 From Coq Require Import List NArith.
-From BG Require Import Base IOModel IOProofs.
+From BG Require Import Base DirectedModel DirectedProofs DirectedIter UndirectedProofs UndirectedIter Equality IOModel IOProofs RoundTrip URoundTrip.
 Import ListNotations.
 Local Open Scope N_scope.
 
@@ -23,3 +25,29 @@ Print Assumptions C14_load_of_encoded_records.
 Example C14_example : enc_record 2 (3, 258, 513) = [3; 0; 0; 0; 2; 1; 0; 0; 1; 2] /\
   omap (fun g => (DirectedModel.adj g, DirectedModel.labels g)) (load_binary DirectedModel.repaired false 2 (enc_records 2 [(2, 0, 7); (0, 1, 513)])) = Val ([[1]; []; [0]]%nat, [((0, 1)%nat, 513); ((2, 0)%nat, 7)]).
 Proof. vm_compute. auto. Qed.
+
+(* ---- graph-level round trip.  fits w g: at most 2^32 vertices and every stored label below 256^w; hs_of w: the graph has labels iff w > 0;
+   brec w g e: the record (source, destination, label of e - 0 when unlabelled) ---- *)
+Local Close Scope N_scope.
+Theorem C14_binary_round_trip_directed : forall (w : nat) (g : @dgraph N), Inv (hs_of w) g -> KeysOK g -> RoundTrip.fits w g ->
+  exists (b : bytes) (h h' : @dgraph N),
+    write_binary repaired false w g = Val b /\ b = enc_records w (map (brec w g) (flatten g)) /\
+    load_binary repaired false w b = Val h /\ build_graph repaired false w (map (brec w g) (flatten g)) = Val h /\
+    size h <= size g /\ adj h = firstn (size h) (adj g) /\
+    resize h (size g) = (h', Done) /\
+    adj h' = adj g /\ size h' = size g /\ enum h' = enum g /\ (forall e, lfind e (labels h') = lfind e (labels g)) /\ KeysOK h' /\ Inv (hs_of w) h' /\
+    graph_eqb N.eqb h' g = Val true.
+Proof. exact RoundTrip.binary_round_trip_directed. Qed.
+Print Assumptions C14_binary_round_trip_directed.
+(* undirected: one record per edge; the lists come back as sets ([reloaded]: smaller neighbours ascending, then the rest in their old order) *)
+Theorem C14_binary_round_trip_undirected : forall (w : nat) (g : @dgraph N), InvU (hs_of w) g -> KeysOK g -> RoundTrip.fits w g ->
+  exists (b : bytes) (h h' : @dgraph N),
+    write_binary repaired true w g = Val b /\ b = enc_records w (map (brec w g) (filter up (flatten g))) /\
+    load_binary repaired true w b = Val h /\ size h <= size g /\
+    resize h (size g) = (h', Done) /\
+    size h' = size g /\ enum h' = enum g /\
+    (forall k, k < size g -> nb h' k = reloaded g k) /\ (forall i j, In j (nb h' i) <-> In j (nb g i)) /\
+    (forall e, lfind e (labels h') = lfind e (labels g)) /\ KeysOK h' /\ InvU (hs_of w) h' /\
+    graph_eqb N.eqb h' g = Val true.
+Proof. exact URoundTrip.binary_round_trip_undirected. Qed.
+Print Assumptions C14_binary_round_trip_undirected.
